@@ -86,7 +86,7 @@ func genC26(t *rapid.T) c26Case {
 		}
 		switch rapid.SampledFrom([]string{"register", "subscribe", "subscribe", "publish", "publish", "unsubscribe", "ping", "sleep", "inject", "inject", "inject"}).Draw(t, "kind") {
 		case "register":
-			name := rapid.SampledFrom([]string{"t/a", "t/b", "r/1", "r/2"}).Draw(t, "rname")
+			name := rapid.SampledFrom([]string{"t/a", "t/b", "r/1", "r/2", "p/one", "p/two"}).Draw(t, "rname")
 			registered[name] = true
 			c.Steps = append(c.Steps, c26Step{Call: &clsim.Call{API: "Register", Topic: name}})
 		case "subscribe":
@@ -94,7 +94,7 @@ func genC26(t *rapid.T) c26Case {
 			if rapid.IntRange(0, 4).Draw(t, "predefsub") == 0 {
 				c.Steps = append(c.Steps, c26Step{Call: &clsim.Call{API: "SubscribePredefined", TopicID: uint16(rapid.IntRange(1, 2).Draw(t, "spid")), QoS: qos}})
 			} else {
-				f := rapid.SampledFrom([]string{"t/a", "t/b", "w/#", "w/+", "ab", "#", "w/x", "w/y"}).Draw(t, "filter")
+				f := rapid.SampledFrom([]string{"t/a", "t/b", "w/#", "w/+", "ab", "#", "w/x", "w/y", "p/one", "p/cl-two", "p/two"}).Draw(t, "filter")
 				if !live[f] && rapid.IntRange(0, 4).Draw(t, "refused") == 0 {
 					// the broker refuses this subscription; nothing else may change because of it
 					c.Steps = append(c.Steps, c26Step{Call: &clsim.Call{API: "Subscribe", Topic: f, QoS: qos}, Refuse: true})
@@ -384,7 +384,7 @@ func lookup(m map[string]map[uint16]string, client string, id uint16) (string, b
 func TestC26(t *testing.T) {
 	vf.Check(t, vf.Prop[c26Case]{
 		ID: "C26", Name: "interop", Bubble: true, DeadlockIsViolation: true,
-		Rule: "real client and real gateway session over a lossless in-memory link with a conforming model broker (which also plays other clients); auth on/off, will on/off; scripts of 3-25 steps: Register, Subscribe (plain, wildcard, short, predefined; QoS 0-2; a fifth of the subscriptions to filters not subscribed yet are refused by the broker), Publish / PublishPredefined (QoS -1..2, short / predefined / registered topics, retain), Unsubscribe, Ping, Sleep (0.5-4 s; a blocking call during which broker publishes are injected), further Sleeps from the awake state, Connect back to active, Disconnect; broker injections of single messages and bursts of 2-5 back-to-back messages on known, predefined, short and not-yet-registered topics under a wildcard (the same new topic several times in a burst, and different ones). Non-trivial = a script with a sleep cycle, a burst on an unregistered topic, or >= 3 different API kinds; distinct by case.",
+		Rule: "real client and real gateway session over a lossless in-memory link with a conforming model broker (which also plays other clients); auth on/off, will on/off; scripts of 3-25 steps: Register, Subscribe (plain, wildcard, short, predefined - by ID, and by the NAME of a predefined topic, visible or shadowed for this client -; QoS 0-2; a fifth of the subscriptions to filters not subscribed yet are refused by the broker), Publish / PublishPredefined (QoS -1..2, short / predefined / registered topics, retain), Unsubscribe, Ping, Sleep (0.5-4 s; a blocking call during which broker publishes are injected), further Sleeps from the awake state, Connect back to active, Disconnect; broker injections of single messages and bursts of 2-5 back-to-back messages on known, predefined, short and not-yet-registered topics under a wildcard (the same new topic several times in a burst, and different ones). Non-trivial = a script with a sleep cycle, a burst on an unregistered topic, or >= 3 different API kinds; distinct by case.",
 		Assumptions: []string{"Publish to a plain name is preceded by Register/Subscribe of that name (the API documents the precondition); after Sleep returns the script continues with Sleep, Connect, Disconnect or nothing (the client is 'awake', not active)",
 			"sleeps stay below RetryDelay so that the C11 known finding (retransmission copies in the wake-up flush) does not interfere",
 			"oracle: every call returns nil (a Subscribe the broker refuses returns an error and changes nothing else); subscriptions and publishes are at the broker model exactly as requested; every injected message that matches a live subscription runs a handler exactly once, with the broker's topic"},
